@@ -31,6 +31,10 @@ func runGrefcount(c *Ctx) {
 	// --- resolve
 	if d := c.declByName("R7", "refcount", "RefCount", "resolve"); d != nil {
 		name := core.FuncName(d.Obj)
+		gen := "?nonce"
+		if v := paramWhere(d, func(t types.Type) bool { return isBasic(t, types.IsInteger) }); v != nil {
+			gen = c.Role(v)
+		}
 		c.Walk("R7", &core.Config{}, core.Entry{Decl: d}, func(p *core.Path) {
 			g := prepare(c, p)
 			var relVar *types.Var
@@ -50,20 +54,20 @@ func runGrefcount(c *Ctx) {
 				}
 				if assignsField(ev, valueRel, "") && ev.Rhs != nil && identVar(ev.Rhs, ev.Frame) == relVar {
 					stored = true
-					a.requireGuard("R7", name+"/store-release-func", g, i, false, eq("nonce", nonce), "storing the resolver's release function")
+					a.requireGuard("R7", name+"/store-release-func", g, i, false, eq(gen, nonce), "storing the resolver's release function")
 					a.note("R7", name+"/store-release-func/locked", ev.Pos, !holdsLock(ev, mtx), "the release function is stored under mtx", "the release function is stored without mtx", p)
 				}
 				if (ev.Kind == core.KDefer || ev.Kind == core.KCall) && ev.Builtin == "" && ev.Call != nil && identVar(ev.Call.Fun, ev.Frame) == relVar {
 					calledOrNil = true
 				}
 				if g.lits[i] != nil {
-					if ok, _ := implies(g.litsBefore(i+1, false), eq("nil", relVar.Name())); ok {
+					if ok, _ := implies(g.litsBefore(i+1, false), eq("nil", c.Role(relVar))); ok {
 						calledOrNil = true
 					}
 				}
 				for _, f := range []string{resolved, "refcount.RefCount.value", "refcount.RefCount.valueErr"} {
 					if assignsField(ev, f, "") && ev.Frame.Parent == nil {
-						a.requireGuard("R7", name+"/store-result", g, i, false, eq("nonce", nonce), "storing the resolver's result")
+						a.requireGuard("R7", name+"/store-result", g, i, false, eq(gen, nonce), "storing the resolver's result")
 					}
 				}
 			}
@@ -97,7 +101,7 @@ func runGrefcount(c *Ctx) {
 					}
 					if callsFunc(ev, "refcount.(*RefCount).startResolveLocked") {
 						did = true
-						a.requireGuard("R12", lname+"/restart", g, i, false, eq("nonce", nonce), "re-resolving from released()")
+						a.requireGuard("R12", lname+"/restart", g, i, false, eq(gen, nonce), "re-resolving from released()")
 						a.note("R12", lname+"/restart/locked", ev.Pos, !holdsLock(ev, mtx), "released() restarts under mtx", "released() restarts without holding mtx", p)
 					}
 				}
@@ -109,7 +113,7 @@ func runGrefcount(c *Ctx) {
 				if r.did {
 					continue
 				}
-				ok, cx := implies(r.lits, fnot(eq("nonce", nonce)))
+				ok, cx := implies(r.lits, fnot(eq(gen, nonce)))
 				a.note("R12", lname+"/restart/complete", l.Pos(), !ok,
 					"every locked path of released() that does not restart has established a changed generation",
 					sprintf("released() returns without restarting on a path that does not exclude r.nonce == nonce (conditions: %s; counterexample %s): an invalidation is dropped and the stale value stays current", litsString(r.lits), cx), r.p)
@@ -241,7 +245,13 @@ func runGrefcount(c *Ctx) {
 			}
 		}
 	}
-	iff(setCtx, "refcount.(*RefCount).SetContext/restart-iff-changed", fnot(eq("ctx", "refcount.RefCount.ctx")), "restarting the resolution", token.NoPos)
+	setCtxParam := "?ctx"
+	if d := c.Prog.Decl(c.Prog.LookupFunc("refcount", "RefCount", "SetContext")); d != nil {
+		if v := paramWhere(d, isContextType); v != nil {
+			setCtxParam = c.Role(v)
+		}
+	}
+	iff(setCtx, "refcount.(*RefCount).SetContext/restart-iff-changed", fnot(eq(setCtxParam, "refcount.RefCount.ctx")), "restarting the resolution", token.NoPos)
 	lastGone := fand(eq("0", "len(refcount.RefCount.refs)"),
 		for_(for_(fnot(fld("refcount.RefCount.keepUnref")), fnot(fld(resolved))), fnot(eq("nil", "refcount.RefCount.valueErr"))))
 	// paths on which nothing was removed (a "the set shrank" comparison failed) are not judged
@@ -294,7 +304,11 @@ func runGrefcount(c *Ctx) {
 			for i, ev := range p.Events {
 				if ev.Kind == core.KCall && ev.Callee != nil && core.FuncName(ev.Callee) == "refcount.(*Ref).Release" {
 					released = true
-					a.requireGuard("R12", name+"/release-on-error-only", g, i, false, fnot(eq("err", "nil")), "releasing the reference")
+					errRole := "?err"
+					if v := localWhere(d, d.Decl, func(v *types.Var, _ *ast.Ident) bool { return isErrorType(v.Type()) }); v != nil {
+						errRole = c.Role(v)
+					}
+					a.requireGuard("R12", name+"/release-on-error-only", g, i, false, fnot(eq(errRole, "nil")), "releasing the reference")
 				}
 				if ev.Kind == core.KReturn && ev.Frame.Parent == nil && len(ev.Results) == 3 && isNilExpr(ev.Results[2], ev.Frame) {
 					a.note("R12", name+"/success-keeps-reference", ev.Pos, released, "a successful return leaves the reference held", "a successful return follows a Release of the reference: the value can be released while the caller uses it", p)
@@ -314,6 +328,7 @@ func runGrefcount(c *Ctx) {
 				}
 			}
 		}
+		cancelVar := assignedFromCall(d, d.Decl, 1, func(call *ast.CallExpr) bool { _, ok := callSel(call, "WithCancel"); return ok })
 		c.Walk("R12", &core.Config{}, core.Entry{Decl: d}, func(p *core.Path) {
 			g := prepare(c, p)
 			cbIdx := -1
@@ -322,7 +337,7 @@ func runGrefcount(c *Ctx) {
 			var genFlag *types.Var
 			cancelDeferred := false
 			for i, ev := range p.Events {
-				if ev.Kind == core.KDefer && strings.Contains(core.ExprString(ev.Call.Fun), "cbCancel") {
+				if ev.Kind == core.KDefer && cancelVar != nil && identVar(ev.Call.Fun, ev.Frame) == cancelVar {
 					cancelDeferred = true
 				}
 				if ev.Kind == core.KCall && ev.Callee == nil && ev.Builtin == "" && cbParam != nil && identVar(ev.Call.Fun, ev.Frame) == cbParam {
@@ -353,7 +368,7 @@ func runGrefcount(c *Ctx) {
 				if ev.Kind == core.KReturn && ev.Frame.Parent == nil && len(ev.Results) == 1 && cbErrVar != nil && identVar(ev.Results[0], ev.Frame) == cbErrVar {
 					ok := false
 					if genFlag != nil && sameIdx > cbIdx {
-						ok, _ = implies(g.litsBefore(i, false), fld(genFlag.Name()))
+						ok, _ = implies(g.litsBefore(i, false), fld(c.Role(genFlag)))
 					}
 					a.note("R12", name+"/return-callback-result", ev.Pos, !ok,
 						"the callback's result is returned only when a generation comparison made under the lock after the callback returned found the generation unchanged",
@@ -372,11 +387,12 @@ func runGrefcount(c *Ctx) {
 				onWait, cancelled := false, false
 				for _, ev := range p.Events {
 					if ev.Kind == core.KRecv && ev.InSelect {
-						if v := identVar(ev.Chan, ev.Frame); v != nil && v.Name() == "waitCh" {
+						// the arm on a plain channel variable (not ctx.Done()): the wait channel
+						if v := identVar(ev.Chan, ev.Frame); v != nil && isChanType(v.Type()) {
 							onWait = true
 						}
 					}
-					if ev.Kind == core.KCall && strings.Contains(core.ExprString(ev.Call.Fun), "cbCancel") {
+					if ev.Kind == core.KCall && cancelVar != nil && identVar(ev.Call.Fun, ev.Frame) == cancelVar {
 						cancelled = true
 					}
 				}
